@@ -107,6 +107,9 @@ var c07svcStyle = 0
 // c07pctStyle: parameter patterns in which "%%" and function chunks touch the references
 var c07pctStyle = false
 
+// c07repStyle: parameter patterns that name one parameter several times before and between the references that matter
+var c07repStyle = false
+
 func c07build(atoms []c07atom, paramStyle int) c07model {
 	m := c07model{cfg: &Cfg{}, fine: map[string]map[string]bool{}, coarse: map[string]map[string]bool{}}
 	svcArgs := make([][]any, 3)
@@ -223,7 +226,22 @@ func c07build(atoms []c07atom, paramStyle int) c07model {
 			sb.WriteString(`%env("C07", "e")%` + c07par[(i+1)%3] + `%env("C07", "f")%%%`)
 			v = sb.String()
 		}
+		if c07repStyle && len(parDeps[i]) >= 1 {
+			// an unrelated leaf parameter named twice, then every real reference, then every real reference once more
+			var sb strings.Builder
+			sb.WriteString("1%unit% - 5%unit% ")
+			for _, d := range parDeps[i] {
+				sb.WriteString("(%" + c07par[d] + "%)")
+			}
+			for _, d := range parDeps[i] {
+				sb.WriteString("[%" + c07par[d] + "%]%unit%")
+			}
+			v = sb.String()
+		}
 		m.cfg.Params = append(m.cfg.Params, Param{c07par[i], v})
+	}
+	if c07repStyle {
+		m.cfg.Params = append(m.cfg.Params, Param{"unit", "u"})
 	}
 	// declaration order: decorator 0's entries first (style < 4) or last (style >= 4)
 	sort.SliceStable(entries, func(i, j int) bool {
@@ -498,6 +516,20 @@ func init() {
 				w.Case(fmt.Sprintf("params/percent-neighbours/%03x", mask), func(c *C) {
 					c07pctStyle = true
 					defer func() { c07pctStyle = false }()
+					c07eval(w, c, sel, 1)
+				})
+			}
+			// ... and once more with repeated references: a leaf parameter named twice in front, every reference given twice
+			for mask := 0; mask < 512; mask++ {
+				var sel []c07atom
+				for b := 0; b < 9; b++ {
+					if mask&(1<<uint(b)) != 0 {
+						sel = append(sel, c07atom{"pp", b / 3, b % 3})
+					}
+				}
+				w.Case(fmt.Sprintf("params/repeated-references/%03x", mask), func(c *C) {
+					c07repStyle = true
+					defer func() { c07repStyle = false }()
 					c07eval(w, c, sel, 1)
 				})
 			}
